@@ -14,6 +14,7 @@ from __future__ import annotations
 import ast
 import inspect
 import itertools
+import re
 
 from pyvc.values import *  # noqa
 from pyvc.contract import Contract, Case
@@ -349,6 +350,21 @@ GROUND.append(Bounded('binding_power_table_vs_EBNF', ground_bp_table))
 
 # ---- bounded: source round-trip, whitespace and comment insensitivity ---------------------------------
 
+V2, V3, V31 = ('2.0', '3.0', '3.1'), ('3.0', '3.1'), ('3.1',)
+VALUE_ROUNDTRIP = [
+    (('1.0',) + V2, "'it''s \"x\"'"), (('1.0',) + V2, "\"a'b\""), (('1.0',) + V2, "'a\nb'"), (('1.0',) + V2, "concat('x', \"'\", '\"')"), (('1.0',) + V2, "'back\\slash'"),
+    (V3, "(1, 2) instance of Q{http://www.w3.org/2001/XMLSchema}integer+"), (V3, "(abs#1, abs#1) instance of function(*)+"), (V3, "(abs#1) instance of function(xs:integer) as xs:integer"),
+    (V31, "[/r/@k] instance of array(attribute())"), (V31, "[/r/@k] instance of array(attribute(k))"), (V2, "/r/@k instance of attribute(k)"), (V2, "/r/@k instance of attribute()+"),
+    (V2, "/r/attribute(k)"), (V2, "/r/attribute::k"), (V2, "1e3 instance of xs:double"), (V2, "5. instance of xs:decimal"), (V2, "0.0000001 instance of xs:decimal"), (V2, "1.50 instance of xs:decimal"),
+    (V31, "let $k := 'a' return map{$k : 1}?a"), (V31, "map{'a': 1}?a"), (V31, "map{1: 'x', 2: 'y'}(2)"), (V2, "(1, 2) treat as item()+"), (V31, "() instance of array(xs:integer)?"),
+    (V2, "/r instance of element(r)+"), (V3, "function($x as xs:integer+) as xs:string* { 'a' }(1)"), (V2, "-1 cast as xs:string"), (V31, "(map{}, map{}) instance of map(*)*"),
+    (V2, "$a instance of xs:integer"), (V2, "1 instance of xs:integer?"), (V2, "2 cast as xs:double?"), (V2, "'1' castable as xs:integer?"), (V2, "(1, 2) instance of xs:integer+"),
+    (V2, "/r/a instance of element(a, xs:untyped)"), (V2, "//text() instance of text()+"), (V2, "/ instance of document-node(element(r))") , (V3, "(1, 'a') ! (. instance of xs:string)"),
+    (V3, "let $f := function($a, $b) { $a || $b } return $f('x', 'y')"), (V31, "[1, 2]?*"), (V31, "(1, 2) => sum()"), (V2, "if (1) then 'a' else \"b\""), (V2, "for $x in (1, 2) return $x * 2"),
+    (V2, "some $x in (1, 2) satisfies $x = 2"), (V2, "(1 to 3)[. > 1]"), (V2, "/r/a/text()"), (V2, "/r/@k = 'v'"), (V2, "xs:date('2000-01-01') + xs:dayTimeDuration('P1D')"),
+]
+
+
 def bounded_roundtrip(tier, seed):
     fails, n, seen = [], 0, set()
     for version in ('1.0', '2.0', '3.0', '3.1'):
@@ -389,8 +405,36 @@ def bounded_roundtrip(tier, seed):
                     ok = False
                 if not ok and len(fails) < 30:
                     fails.append({'key': f'ws {version}: {v}', 'what': f'XPath {version}: `{v}` does not parse like `{text}`'})
+    # value-level round trip: the source text evaluates to the same value, of the same type, as the original
+    import xml.etree.ElementTree as ET
+    from elementpath import XPathContext
+    root = ET.XML('<r k="v"><a>1</a></r>')
+    for versions, text in VALUE_ROUNDTRIP:
+        for version in versions:
+            n += 1
+            seen.add((version, 'value', text[:12]))
+
+            def run(src):
+                try:
+                    tok = PARSERS[version]().parse(src)
+                    v = tok.evaluate(XPathContext(root, variables={'a': 1}))
+                    return tok, ('value', [(type(x).__name__, str(getattr(x, 'name', x))) for x in (v if isinstance(v, list) else [v])])
+                except ElementPathError as e:
+                    return None, ('error', e.code)
+                except Exception as e:      # noqa
+                    return None, ('crash', type(e).__name__)
+            t1, v1 = run(text)
+            if t1 is None:
+                continue        # not an expression of this version / this tree: nothing to round-trip
+            t2, v2 = run(t1.source)
+            if v2 != v1:
+                kind = ('a numeric literal changes its type (1e3 becomes 1000.0, 5. becomes 5, 0.0000001 becomes 1E-7)' if re.search(r'\d(e\d|\.\s|\.0{5})', text + ' ')
+                        else 'a map constructor with a variable or name key' if 'map{$' in text or 'map{a' in text else text)
+                fails.append({'key': f'value of the source text differs: {kind}'[:160], 'what': f'XPath {version}: `{text}` evaluates to {v1}, its source '
+                              f'`{t1.source}` to {v2}', 'expr': text})
     return {'evaluations': n, 'distinct': len(seen), 'failures': fails, 'n_failures': len(fails),
-            'scope': 'all two-operator chains (4 parenthesisations incl. a leading unary minus) per version: '
+            'scope': f'{len(VALUE_ROUNDTRIP)} expressions with literals, sequence types and constructors evaluated before and after the source round trip (value and type); '
+                     'all two-operator chains (4 parenthesisations incl. a leading unary minus) per version: '
                      'parse(parse(s).source) == parse(s); doubled blanks / newlines / nested (: :) comments between tokens',
             'rule': 'distinct = (version, number of parentheses); every chain counted in evaluations'}
 
@@ -409,6 +453,11 @@ PROBES = [
     (('2.0', '3.0', '3.1'), '(1, 2) instance of item()+', 'True'), (('2.0', '3.0', '3.1'), '() instance of item()+', 'False'),
     (('2.0', '3.0', '3.1'), '() instance of node()?', 'True'), (('2.0', '3.0', '3.1'), '(1, 2) instance of xs:integer*', 'True'),
     (('3.0', '3.1'), '(abs#1) instance of function(*)+', 'True'), (('3.1',), '[1] instance of array(*)?', 'True'),
+    # string literals: only the delimiter is escaped by doubling; comments between a function name and its parenthesis may contain anything
+    (('1.0', '2.0', '3.0', '3.1'), "string-length(\"it''s\")", '5'), (('1.0', '2.0', '3.0', '3.1'), "string-length('say \"\"hi\"\"')", '10'),
+    (('2.0', '3.0', '3.1'), "string-length('it''s')", '4'), (('2.0', '3.0', '3.1'), 'string-length("a""b")', '3'),
+    (('2.0', '3.0', '3.1'), 'count (: a:b :) ((1, 2))', '2'), (('2.0', '3.0', '3.1'), 'count(: x::y :)((1, 2, 3))', '3'), (('2.0', '3.0', '3.1'), "concat (: p:q, 'z' :) ('a', 'b')", "'ab'"),
+    (('2.0', '3.0', '3.1'), 'string-length (: one :) (: two :) ("ab")', '2'),
 ]
 NAME_PROBES = ['div.b', 'mod.c', 'to.y', 'for.v', 'and.x', 'or.y', 'if.then', 'union.a', 'eq.b', 'is.c', 'div-b', 'mod_c', 'then', 'else.x', 'return.x', 'instance.of',
                'cast.as', 'idiv.z', 'except.w', 'text.node', 'node.x', 'comment.y', 'element.z', 'item.q']
@@ -450,13 +499,39 @@ def ground_probes(tier, seed):
                 if got != want:
                     fails.append({'key': f'a name starting with a keyword is not read as a name ({name.split(".")[0]}.)', 'version': v, 'expr': expr, 'want': repr(want),
                                   'what': f'XPath {v}: `{expr}` gives {got!r}; `{name}` is an NCName and selects the element'})
+    # one parser instance across parses: after an expression that fails to parse, later expressions are parsed like by a fresh instance
+    FAILING = ['1 => nope:abs()', "'a' => xs:exp()", '1 => (', '1 +', 'abs(', '(1, 2', 'for $x in', 'a[', 'concat(1, ', 'map{1:', '1 instance of', 'Q{u', "'unterminated",
+               '1 (: open comment', 'function($a', 'a::b::c', '$', '1 treat as', 'if (1) then', 'let $x :=', '[1, 2', 'a =>', '?', '1 cast as xs:nope']
+    AFTER = ['abs(-1)', "concat('a', 'b')", 'position()', 'count((1, 2)) + 1', '(1, 2) => sum()', "xs:int('7')", "string-join(('a', 'b'), '-')", 'a/b[1]', '1 to 3']
+    for v in ('1.0', '2.0', '3.0', '3.1'):
+        shared = PARSERS[v]()
+        for bad_expr in FAILING:
+            try:
+                shared.parse(bad_expr)
+                continue            # valid in this version: not a failing parse
+            except ElementPathError:
+                pass
+            for expr in AFTER:
+                n += 1
+                def tree(p):
+                    try:
+                        return p.parse(expr).tree
+                    except ElementPathError as e:
+                        return f'ERROR {e.code}'
+                    except Exception as e:      # noqa - a non-XPath error is also a difference from the fresh instance (C03 judges the exception type)
+                        return f'EXCEPTION {type(e).__name__}'
+                got, want = tree(shared), tree(PARSERS[v]())
+                if got != want:
+                    fails.append({'key': 'after a failing parse the same parser instance parses a later expression differently', 'version': v, 'expr': expr,
+                                  'want': want, 'what': f'XPath {v}: after the failing parse of `{bad_expr}` the same instance parses `{expr}` as {got}; a fresh instance '
+                                  f'gives {want}'})
     uniq = {}
     for f in fails:
         uniq.setdefault(f['key'], f)
     return {'obligations': n, 'discharged': n - len(fails), 'evaluations': n, 'distinct': n, 'exhaustive': True, 'count_each': True,
             'scope': f'{len(PROBES)} grouping probes whose value is fixed by the EBNF (unary against arrow / cast / union / path / simple map, range and concat levels, '
             f'comments nested up to four levels, sequence types with occurrence indicators; each also through its `source`) and {len(NAME_PROBES)} names that start '
-            'with a keyword, as element and attribute name tests, in every version', 'failures': list(uniq.values())}
+            'with a keyword, as element and attribute name tests, in every version; 24 failing parses x 9 later expressions on one parser instance per version against a fresh instance', 'failures': list(uniq.values())}
 
 
 def replay_probe(f):
